@@ -4,6 +4,7 @@ import (
 	"fmt"
 	"go/types"
 	"math/big"
+	"strings"
 
 	"golang.org/x/tools/go/ssa"
 
@@ -16,6 +17,62 @@ func (x *Exec) modelCall(bc *blockCtx, in ssa.Instruction, name string, f *ssa.F
 	t := func(i int) *smt.Term { return x.asTerm(args[i]) }
 	ret := func(v *smt.Term) (*Val, bool) { return &Val{Typ: f64, T: v}, true }
 	switch name {
+	case "(*sync/atomic.Value).Load", "(*sync/atomic.Value).Store":
+		// `opt atomicexact 1`: sequential semantics of an atomic.Value (a cell holding
+		// an interface value). Without the option the trusted contracts apply, which
+		// leave a loaded value unconstrained (any interleaving of other goroutines).
+		if x.rootC == nil || x.rootC.Opts["atomicexact"] == "" || args[0].Loc == nil && args[0].T == nil {
+			return nil, false
+		}
+		loc := x.derefLoc(bc, in, args[0])
+		st, ok := loc.Typ.Underlying().(*types.Struct)
+		if !ok || st.NumFields() != 1 {
+			return nil, false
+		}
+		nl := *loc
+		nl.Path = append(append([]PathElem{}, loc.Path...), PathElem{Field: 0, Typ: loc.Typ})
+		nl.Typ = st.Field(0).Type()
+		x.note("atomic.Value is modelled sequentially here (opt atomicexact): Load returns what was last stored")
+		if strings.HasSuffix(name, ".Load") {
+			return &Val{Typ: st.Field(0).Type(), T: x.loadLoc(bc.st, &nl)}, true
+		}
+		x.storeLoc(bc.st, &nl, x.asTerm(args[1]))
+		return nil, true
+	case "github.com/unixpickle/essentials.UnorderedDelete":
+		// exact model of the (reflection-based) library routine for a *[]E argument:
+		// s[idx] = s[len(s)-1]; s = s[:len(s)-1]; panics when idx is out of range
+		call, ok := in.(ssa.CallInstruction)
+		if !ok {
+			return nil, false
+		}
+		mi, ok := call.Common().Args[0].(*ssa.MakeInterface)
+		if !ok {
+			return nil, false
+		}
+		pt, ok := mi.X.Type().Underlying().(*types.Pointer)
+		if !ok {
+			return nil, false
+		}
+		slt, ok := pt.Elem().Underlying().(*types.Slice)
+		if !ok {
+			return nil, false
+		}
+		pv := x.valueIn(bc.fr, bc.env, mi.X)
+		loc := x.derefLoc(bc, in, pv)
+		sl := x.loadLoc(bc.st, loc)
+		idx := t(1)
+		n := x.sLen(sl)
+		x.check(bc, "safe:index", in, x.b.And(x.b.Cmp("<=", x.b.Int(0), idx), x.b.Cmp("<", idx, n)))
+		es := x.so.SortOf(slt.Elem())
+		arrSort := fmt.Sprintf("(Array Int %s)", es)
+		key := x.heapKeySlice(slt.Elem())
+		h := x.getHeap(bc.st, key)
+		inner := x.sel(h, x.sRef(sl), arrSort)
+		last := x.rdSlice(inner, x.sOff(sl), x.b.Sub(n, x.b.Int(1)), es)
+		bc.st.heaps[key] = x.sto(h, x.sRef(sl), x.sto(inner, x.b.Add(x.sOff(sl), idx), last))
+		x.storeLoc(bc.st, loc, x.mkSlice(x.sRef(sl), x.sOff(sl), x.b.Sub(n, x.b.Int(1)), x.sCap(sl)))
+		x.note("essentials.UnorderedDelete(&s, i) is modelled exactly: s[i] = s[len(s)-1]; s = s[:len(s)-1] (trusted model of a reflection-based library routine)")
+		return nil, true
 	case "math.Abs":
 		return ret(x.mathAbs(t(0)))
 	case "math.Min":
